@@ -157,16 +157,20 @@ def compute_pipeline_semantic_id(canonical_spec: Dict[str, Any]) -> str:
     """
 
     # Use the structure of nodes (names, inputs, outputs) but not runtime details
-    pipeline_structure = {
-        "nodes": [
-            {
-                "name": node.get("name"),
-                "node_uuid": node.get("node_uuid"),
-                "payload_from": node.get("payload_from"),
-            }
-            for node in canonical_spec.get("nodes", [])
-        ]
-    }
+    structure_nodes = []
+    for node in canonical_spec.get("nodes", []):
+        entry = {
+            "name": node.get("name"),
+            "node_uuid": node.get("node_uuid"),
+            "payload_from": node.get("payload_from"),
+        }
+        # A sweep node's meaning lives in its (sanitized) preprocessor metadata;
+        # nodes without a preprocessor keep their previous structure entry.
+        pre_meta = node.get("preprocessor_metadata")
+        if isinstance(pre_meta, dict):
+            entry["node_semantic_id"] = compute_node_semantic_id(pre_meta)
+        structure_nodes.append(entry)
+    pipeline_structure = {"nodes": structure_nodes}
     payload = json.dumps(pipeline_structure, sort_keys=True, separators=(",", ":"))
     return (
         "plsemid-"
